@@ -37,6 +37,9 @@ mod util;
 mod validate;
 mod value;
 
+#[cfg(typify_verif)]
+pub mod verif;
+
 #[allow(missing_docs)]
 #[derive(Error, Debug)]
 pub enum Error {
@@ -675,6 +678,8 @@ impl TypeSpace {
 
         // Eliminate cycles. It's sufficient to only start from referenced
         // types as a reference is required to make a cycle.
+        #[cfg(typify_verif)]
+        self.verif_record_pre_cycles();
         self.break_cycles(base_id..base_id + def_len);
 
         // Finalize all created types.
